@@ -429,6 +429,7 @@ package cache
 //@ props C15 C14 C16 C19
 //@ func cacheJanitor.start
 //@   nopanic
+//@   inline
 
 // stop never blocks: it takes no lock and performs no channel send or receive.
 //@ props C14 C16 C19
